@@ -88,14 +88,54 @@ theorem each_call_in_range (k : PKind) (s : PState) (r : Rec) (n : Int) (mapping
 `OnNewBatch` events — any records, any `n_i ∈ [1, 2^31−1]` growing or shrinking arbitrarily, any
 buffered-record counts, any random draws — the run never panics and every pick lies in `[0, n_i)`. -/
 theorem every_pick_in_range (k : PKind) (hk : KindOk k) (ops : List Op) (hv : ∀ op ∈ ops, OpValid k op) :
-    ∃ picks, k.run k.init ops = some picks ∧ ∀ np ∈ picks, 0 ≤ np.2 ∧ np.2 < np.1 :=
-  run_ok k hk ops k.init (init_inv k) hv
+    ∃ picks, k.run k.init ops = some picks ∧ ∀ t ∈ picks, 0 ≤ t.2.2 ∧ t.2.2 < t.2.1 := by
+  obtain ⟨picks, e, h, _⟩ := run_ok k hk .consistentOnly (ruleOk_consistentOnly k) ops k.init [] (init_inv k) hv (by simp)
+  exact ⟨picks, e, h⟩
+
+/-- Model ⇒ Spec on whole traces: the observations of every such run satisfy the executable Spec the
+driver evaluates on the implementation (`traceOk`: range, equal key and n ⇒ equal pick, and the key
+rule's formula whenever the configured hasher computes it). -/
+theorem run_meets_spec (k : PKind) (hk : KindOk k) (rule : KeyRule) (hr : RuleOk k rule) (ops : List Op)
+    (hv : ∀ op ∈ ops, OpValid k op) :
+    ∃ picks, k.run k.init ops = some picks ∧ traceOk rule [] (picks.map toObs) = true := by
+  obtain ⟨picks, e, _, h⟩ := run_ok k hk rule hr ops k.init [] (init_inv k) hv (by simp)
+  exact ⟨picks, e, h⟩
+
+/-- The rules the driver uses are the ones the configured hashers compute. -/
+theorem rule_default_stickyKey : RuleOk (.stickyKey defaultHasher) .kafkaDefault := by
+  intro key n f hn _ h
+  simp only [ruleFormula, Option.some.injEq] at h
+  subst h
+  exact default_hasher_is_java key n hn
+
+theorem rule_default_uniformBytes (c : UBCfg) (hh : c.hasher = defaultHasher) : RuleOk (.uniformBytes c) .kafkaDefault := by
+  intro key n f hn _ h
+  simp only [ruleFormula, Option.some.injEq] at h
+  subst h
+  simp only [kindHasher, hh]
+  exact default_hasher_is_java key n hn
+
+theorem rule_saramaCompat_stickyKey :
+    RuleOk (.stickyKey (fun k n => saramaCompatHasher (fnv32a k) n)) .saramaFnv := by
+  intro key n f hn hn2 h
+  simp only [ruleFormula, Option.some.injEq] at h
+  subst h
+  simp only [kindHasher]
+  rw [saramaCompatHasher_eq _ _ hn hn2, fnv_eq]
+
+theorem rule_sarama_stickyKey :
+    RuleOk (.stickyKey (fun k n => saramaHasher (fnv32a k) n)) .unsignedFnv := by
+  intro key n f hn _ h
+  simp only [ruleFormula, Option.some.injEq] at h
+  subst h
+  simp only [kindHasher]
+  rw [saramaHasher_eq _ _ hn, fnv_eq]
 
 /-- non-vacuity: a least-backup sequence whose `n` shrinks from 3 to 2 below the pinned index. -/
 example : OpValid .leastBackup (.part ⟨none, 0, []⟩ 3 [5, 5, 0] [1]) ∧
     OpValid .leastBackup (.part ⟨none, 0, []⟩ 2 [5, 5] []) ∧
     PKind.run .leastBackup (PKind.init .leastBackup)
-      [.part ⟨none, 0, []⟩ 3 [5, 5, 0] [1], .part ⟨none, 0, []⟩ 2 [5, 5] [1]] = some [(3, 2), (2, 1)] := by
+      [.part ⟨none, 0, []⟩ 3 [5, 5, 0] [1], .part ⟨none, 0, []⟩ 2 [5, 5] [1]] = some [(none, 3, 2), (none, 2, 1)] := by
   refine ⟨⟨by decide, by decide, fun _ => ⟨by decide, by decide⟩⟩, ⟨by decide, by decide, fun _ => ⟨by decide, by decide⟩⟩, by decide⟩
 
 example : KindOk (.stickyKey defaultHasher) := default_hasher_ok
